@@ -14,12 +14,20 @@ const zzAllKinds = zzKString | zzKNumber | zzKInteger | zzKBoolean | zzKArray | 
 
 // zzGenerate runs the real pipeline (New -> addFile -> generateRootType -> Sources) on a
 // schema whose root object has the single property x.
-func zzGenerate(pt *schemas.Type, required bool, viaRef bool, cfg Config) (src string, rootType string, err error) {
+func zzGenerate(pt *schemas.Type, required bool, viaRef bool, cfg Config, extraDefs ...map[string]*schemas.Type) (src string, rootType string, err error) {
 	root := &schemas.Type{Type: schemas.TypeList{"object"}, Properties: map[string]*schemas.Type{"x": pt}}
 	var defs schemas.Definitions
 	if viaRef {
 		defs = schemas.Definitions{"Def": pt}
 		root.Properties["x"] = &schemas.Type{Ref: "#/$defs/Def"}
+	}
+	for _, m := range extraDefs {
+		for k, v := range m {
+			if defs == nil {
+				defs = schemas.Definitions{}
+			}
+			defs[k] = v
+		}
 	}
 	if required {
 		root.Required = []string{"x"}
@@ -45,6 +53,26 @@ func zzGenerate(pt *schemas.Type, required bool, viaRef bool, cfg Config) (src s
 		}
 	}
 	return src, g.getRootTypeName(sch, "root.json"), nil
+}
+
+// zzAllDefs collects the definitions a shape needs.
+func zzAllDefs(s *zzSpec) map[string]*schemas.Type {
+	out := map[string]*schemas.Type{}
+	var walk func(x *zzSpec)
+	walk = func(x *zzSpec) {
+		if x == nil {
+			return
+		}
+		for k, v := range x.defs {
+			out[k] = v
+		}
+		walk(x.items)
+		for _, p := range x.props {
+			walk(p)
+		}
+	}
+	walk(s)
+	return out
 }
 
 // zzIntInterval: smallest and largest integer admitted by the bounds of s (as float64).
@@ -100,7 +128,7 @@ func HarnessL3() {
 	if zzvrt.Param("MINSIZED", 0) == 1 {
 		cfg.MinSizedInts = zzvrt.Bool()
 	}
-	src, rootType, err := zzGenerate(pt, required, viaRef, cfg)
+	src, rootType, err := zzGenerate(pt, required, viaRef, cfg, zzAllDefs(ps))
 	cls := ps.kind
 	if ps.nullable {
 		cls += "?"
